@@ -539,6 +539,6 @@ CHECK = Check(
         SubCheck("redis", _s("redis"), run, quick=15, thorough=800),
         SubCheck("amqp", _s("amqp"), run, quick=15, thorough=800),
         SubCheck("redis-background", fault_case, run_fault, quick=25, thorough=1000),
-        SubCheck("slow-sync-subscribers", slow_subs_case, run_slow_subs, quick=2, thorough=20),
+        SubCheck("slow-sync-subscribers", slow_subs_case, run_slow_subs, quick=2, thorough=20, shards=8),
     ],
 )
